@@ -472,8 +472,14 @@ pub fn run_session<C: Autocomplete + Help>(
                 found!("C02", P_C02, "handout-illformed", "hooked-state", i, "{}", what);
             }
             found!("C03", P_C03, "invariant", class, i, "{}", what);
-            res.transcript = th;
-            return res;
+            if class == "cursor" {
+                // the editor's cursor ran past the end of the line: no memory at stake yet, so the behavioural
+                // monitors keep watching what this does to the session (each reports it in its own terms)
+                found!("C05", P_C05, "cursor-out-of-range", op_name(op, &key), i, "{}", what);
+            } else {
+                res.transcript = th;
+                return res;
+            }
         }
         if on(P_C02) {
             rep.eval();
